@@ -133,15 +133,32 @@ class SmartList(list):
             raise ValueError("List only supports elements of type '%s'" %
                              self._content_type)
 
+        # Make sure the replacement can be done before anything is changed.
+        replaced = self[key]
+        if replaced is value:
+            return
+
+        for obj in self:
+            if obj is not replaced and obj is not value and \
+                    hasattr(obj, "name") and obj.name == value.name:
+                raise KeyError("Object with the same name already exists! " + str(value))
+
+        new_parent = getattr(replaced, "_parent", None)
+        if hasattr(new_parent, "_validate_child") and isinstance(value, Sectionable):
+            new_parent._validate_child(value)
+
         # If required remove new object from its old parents child-list
-        if hasattr(value, "_parent") and (value._parent and value in value._parent):
+        if getattr(value, "_parent", None) is not None:
             value._parent.remove(value)
+
+        # The position can have shifted if the new object was part of this list.
+        key = self.index(replaced)
 
         # If required move parent reference from replaced to new object
         # and set parent reference on replaced object None.
-        if hasattr(self[key], "_parent"):
-            value._parent = self[key]._parent
-            self[key]._parent = None
+        if hasattr(replaced, "_parent"):
+            value._parent = replaced._parent
+            replaced._parent = None
 
         super(SmartList, self).__setitem__(key, value)
 
